@@ -33,12 +33,13 @@ ASSUMPTIONS = [
 ]
 
 TIERS = {
-    'quick': {'runs': 6400, 'chunk': 40, 'timeout_s': 900},
-    'thorough': {'runs': 300000, 'chunk': 400, 'timeout_s': 6 * 3600,
+    'quick': {'runs': 3000, 'chunk': 40, 'timeout_s': 900},
+    'thorough': {'runs': 120000, 'chunk': 400, 'timeout_s': 6 * 3600,
                  'chunk_timeout_s': 3000},
 }
 
 STEP_CAP = 1500000
+SWEEP = 6           # extra single-switch concurrent phases per write-policy run
 _state = {}
 _site_picks = {}    # per worker process: how often a site was targeted
 
@@ -119,6 +120,48 @@ BROKEN = ["$.list.select(", "1 +", "$.n + * 2", "[1, 2", "$.s =~", "foo(,)",
           "$.list.where($ >", "'abc", "$.n $.n", "{a => }"]
 
 
+def family_of(text):
+    if '$yobj' in text:
+        return 'host_objects'
+    if any(k in text for k in ('kindOf', 'chained', 'notStr', 'subLen',
+                               'subSum', 'probe(', 'hostlist')):
+        return 'host_functions'
+    if any(k in text for k in ('sq(', 'pairUp', 'addN', 'def(', 'let(',
+                               'with(', 'unpack')):
+        return 'scopes'
+    if 'datetime' in text or 'timespan' in text:
+        return 'datetime'
+    if any(k in text for k in ('regex', '=~', 'matches', 'format', 'replace(',
+                               'toUpper', 'join(')):
+        return 'strings'
+    if '$host' in text:
+        return 'host_vars'
+    if any(k in text for k in ('orderBy', 'groupBy', 'memorize', 'distinct',
+                               'toSet', 'union', 'toDict')):
+        return 'stateful_lazies'
+    if any(k in text for k in ('.src', 'sequence', 'cycle', 'generate',
+                               'range(')):
+        return 'streams'
+    return 'queries'
+
+
+def families():
+    f = _state.get('families')
+    if f is None:
+        f = {}
+        for t in STATEFUL:
+            f.setdefault(family_of(t), []).append(t)
+        f = _state['families'] = [f[k] for k in sorted(f)]
+    return f
+
+
+def pick_stateful(w):
+    """family first, then a statement of it: the few statements that touch
+    host objects, typed host functions, date/time zones ... are drawn as
+    often as the many plain queries"""
+    return w.choice(w.choice(families()))
+
+
 def pool():
     p = _state.get('pool')
     if p is None:
@@ -150,9 +193,36 @@ def prepare(params, replay=False):
     return {'statement_pool': len(pool())}
 
 
+def gen_focused_case(seeds, w, s):
+    """Short trace, systematic schedule: two threads, one statement of a
+    balanced family each (the same one, or two of the same family), one
+    evaluation per thread; single-switch phases swept over the rarely
+    executed sites of exactly this trace."""
+    fam = w.choice(families())
+    texts = [w.choice(fam)]
+    if w.random() < 0.4:
+        texts.append(w.choice(fam))
+    stmts = [{'kind': 'text', 'flavour': 'default', 'expr': t} for t in texts]
+    d = c09.gen_doc(w)
+    while d['root'] != 'dict':
+        d = c09.gen_doc(w)
+    docs = [d, json.loads(json.dumps(d))]
+    if w.random() < 0.5:
+        docs[1]['v']['n'] = (docs[1]['v']['n'] + 1) % 10
+        docs[1]['v']['list'] = docs[1]['v']['list'] + [7]
+    tasks = [[[0, 0]], [[len(stmts) - 1, 1]]]
+    return {'stmts': stmts, 'docs': docs, 'tasks': tasks,
+            'sched': {'policy': 'writes', 'seed': seeds.sub('sched'),
+                      'nswitch': 1, 'sweep': 14},
+            'via_eval': False, 'cold': w.random() < 0.4, 'shared': 'plain',
+            'modes': [], 'focused': True}
+
+
 def gen_case(seeds, params, index):
     w = seeds.stream('workload')
     s = seeds.stream('schedule')
+    if index % 3 == 1:
+        return gen_focused_case(seeds, w, s)
     P = pool()
     nthreads = w.choice([2, 2, 2, 3, 3, 4])
     mix = w.choice(['same', 'same', 'different', 'mixed'])
@@ -163,11 +233,11 @@ def gen_case(seeds, params, index):
         r = w.random()
         if eval_flavour:
             stmts.append({'kind': 'text', 'flavour': 'default',
-                          'expr': w.choice(STATEFUL[:60]) if w.random() < 0.75
+                          'expr': pick_stateful(w) if w.random() < 0.75
                           else w.choice(BROKEN)})
         elif r < 0.6:
             stmts.append({'kind': 'text', 'flavour': 'default',
-                          'expr': w.choice(STATEFUL)})
+                          'expr': pick_stateful(w)})
         elif r < 0.78:
             stmts.append(dict(w.choice(P)))
         else:
@@ -205,7 +275,7 @@ def gen_case(seeds, params, index):
                     docs[-1]['v']['n'] = (docs[-1]['v']['n'] + t) % 10
             ops.append([si, len(docs) - 1])
         tasks.append(ops)
-    pol = s.choice(['random', 'random', 'pct', 'writes', 'writes'])
+    pol = s.choice(['random', 'pct', 'pct', 'writes', 'writes'])
     if eval_flavour and s.random() < 0.5:
         pol = 'writes'      # module-level caches: target their read/write sites
     spec = {'policy': pol, 'seed': seeds.sub('sched'),
@@ -612,13 +682,15 @@ def run_world(case, stats, record=None):
             if spec.get('switch_at_w_override'):
                 spec['switch_at_w'] = spec['switch_at_w_override']
         info['measured'] = [counter.lines, counter.wpoints]
-        def concurrent():
+        gen_mode = 'schedule' not in case
+
+        def concurrent(spec=spec, schedule=case.get('schedule')):
             # Runs in a forked copy of this process: the worker itself never
             # evaluates anything, so every run starts from the same process
             # state (module-level caches cold) and replays independently of
             # the runs before it.
             baton = sched.Baton(
-                sched_spec=spec, schedule=case.get('schedule'),
+                sched_spec=spec, schedule=schedule,
                 step_cap=STEP_CAP, on_switch=on_switch, write_lines=wl,
                 tracer_files=prefix)
 
@@ -651,34 +723,92 @@ def run_world(case, stats, record=None):
             case['schedule'] = cres['recorded']
         info.update(steps=cres['steps'], switches=cres['switches'],
                     both=cres['both'], recorded=cres['recorded'])
-        for t, ops in enumerate(case['tasks']):
-            for j, (si, di) in enumerate(ops):
-                if results[t] is None or results[t][j] != base[t][j]:
-                    if (t, j) in unstable:
-                        stats.inc('nd.unstable_alone_skipped')
-                        continue
-                    viols.append({
-                        'key': 'C18:result-differs-from-run-alone',
-                        'clause': 'every evaluation returns exactly what it '
-                                  'returns when run alone',
-                        'detail': {'thread': t, 'op': j,
-                                   'statement': c09.stmt_text(case['stmts'][si]),
-                                   'alone': base[t][j],
-                                   'concurrent': results[t][j]
-                                   if results[t] else None,
-                                   'threads': len(case['tasks']),
-                                   'cold_context': cold,
-                                   'via_eval': bool(via_eval)}})
+        def compare(cres):
+            out = []
+            results = cres['results']
+            for t, ops in enumerate(case['tasks']):
+                for j, (si, di) in enumerate(ops):
+                    if results[t] is None or results[t][j] != base[t][j]:
+                        if (t, j) in unstable:
+                            stats.inc('nd.unstable_alone_skipped')
+                            continue
+                        out.append({
+                            'key': 'C18:result-differs-from-run-alone',
+                            'clause': 'every evaluation returns exactly what '
+                                      'it returns when run alone',
+                            'detail': {'thread': t, 'op': j, 'statement':
+                                       c09.stmt_text(case['stmts'][si]),
+                                       'alone': base[t][j],
+                                       'concurrent': results[t][j]
+                                       if results[t] else None,
+                                       'threads': len(case['tasks']),
+                                       'cold_context': cold,
+                                       'via_eval': bool(via_eval)}})
+                        return out
+            if cres['changed']:
+                out.append({'key': 'C18:shared-context-changed',
+                            'clause': 'the shared context is unchanged '
+                                      'afterwards',
+                            'detail': {'stmts': [c09.stmt_text(s)
+                                                 for s in case['stmts']],
+                                       'via_eval': bool(via_eval)}})
+            return out
+        viols.extend(compare(cres))
+        # Site sweep ("systematically for short traces"): for runs under the
+        # write-point policy, a few more concurrent phases with ONE switch
+        # each, placed right after a rarely executed store / global access
+        # this worker has targeted least so far.
+        if not viols and gen_mode and spec.get('policy') == 'pct' and \
+                counter.lines > 0:
+            # position sweep: more single-switch schedules over the same
+            # world and baselines; short traces get more of them
+            import random
+            r3 = random.Random(spec.get('seed', 0) + 2)
+            for _ in range(max(2, min(10, 40000 // max(1, counter.lines)))):
+                spec3 = {'policy': 'pct', 'seed': r3.randrange(1 << 30),
+                         'switch_at': [r3.randrange(1, counter.lines + 1)]}
+                c3 = core.fork_call(lambda: concurrent(spec3, None),
+                                    timeout=600)
+                stats.inc('sweep_phases')
+                info['steps'] = info.get('steps', 0) + c3['steps']
+                info['switches'] = info.get('switches', 0) + c3['switches']
+                info['both'] = info.get('both', 0) + c3['both']
+                if c3['aborted']:
+                    continue
+                v3 = compare(c3)
+                if v3:
+                    viols.extend(v3)
+                    case['schedule'] = c3['recorded']
+                    info['recorded'] = c3['recorded']
                     break
-            if viols:
-                break
-        if not viols and cres['changed']:
-            viols.append({'key': 'C18:shared-context-changed',
-                          'clause': 'the shared context is unchanged '
-                                    'afterwards',
-                          'detail': {'stmts': [c09.stmt_text(s)
-                                               for s in case['stmts']],
-                                     'via_eval': bool(via_eval)}})
+        if not viols and gen_mode and spec.get('policy') == 'writes':
+            nthreads = len(case['tasks'])
+            import random
+            r2 = random.Random(spec.get('seed', 0) + 1)
+            rare = sorted(x for x in counter.sites
+                          if counter.sites[x] <= 4 * nthreads)
+            r2.shuffle(rare)
+            rare.sort(key=lambda x: (_site_picks.get(x, 0),
+                                     0 if x in sched.GLOBAL_SITES else 1))
+            for site in rare[:spec.get('sweep', SWEEP)]:
+                _site_picks[site] = _site_picks.get(site, 0) + 1
+                spec2 = {'policy': 'writes', 'seed': r2.randrange(1 << 30),
+                         'switch_at_w': [[site[0], site[1], r2.randrange(
+                             1, counter.sites[site] + 1)]]}
+                c2 = core.fork_call(lambda: concurrent(spec2, None),
+                                    timeout=600)
+                stats.inc('sweep_phases')
+                info['steps'] = info.get('steps', 0) + c2['steps']
+                info['switches'] = info.get('switches', 0) + c2['switches']
+                info['both'] = info.get('both', 0) + c2['both']
+                if c2['aborted']:
+                    continue
+                v2 = compare(c2)
+                if v2:
+                    viols.extend(v2)
+                    case['schedule'] = c2['recorded']
+                    info['recorded'] = c2['recorded']
+                    break
     finally:
         if gc_was:
             gc.enable()
@@ -722,6 +852,8 @@ def execute(case, stats):
         stats.inc('flavour.yaql_eval')
     if case.get('cold'):
         stats.inc('flavour.cold_context_chain')
+    if case.get('focused'):
+        stats.inc('flavour.focused_short_trace')
     stats.inc('flavour.shared_' + case.get('shared', 'plain'))
     for m_ in case.get('modes', []):
         stats.inc('flavour.op_' + m_[2])
@@ -802,6 +934,7 @@ def coverage(stats, params):
         'probes': stats.counters('probe.'),
         'threads': stats.counters('threads.'),
         'schedule_policies': stats.counters('policy.'),
+        'site_sweep_phases': stats.n('sweep_phases'),
         'static_write_lines': len(write_lines()),
         'flavours': stats.counters('flavour.'),
         'status': stats.counters('status.'),
